@@ -57,6 +57,9 @@ def strategies():
     from hypothesis import strategies as st
 
     timeouts = st.fixed_dictionaries({"acse": st.sampled_from([1, 2]), "dimse": st.sampled_from([1, 2]), "network": st.sampled_from([2, 4]), "connection": st.just(2)})
+    # two pynetdicom AEs: also no DIMSE timeout at all (the library default is 30 s; None = wait until the peer answers, aborts or the
+    # connection goes - which a pynetdicom peer always does); not used against raw peers, where a silent peer would then legitimately block
+    timeouts_pair = st.fixed_dictionaries({"acse": st.sampled_from([1, 2]), "dimse": st.sampled_from([1, 2, 2, None]), "network": st.sampled_from([2, 4]), "connection": st.just(2)})
     # steps at which the schedule is perturbed: biased to the first steps (thread start-up / negotiation races) and to the whole run
     step = st.one_of(st.integers(0, 40), st.integers(0, 300), st.integers(0, 2500))
     # (policy, drift) combinations, the most perturbing first (Hypothesis favours the first elements early in a run)
@@ -88,7 +91,7 @@ def strategies():
         script = [["associate"]] + draw(st.lists(op, max_size=3)) + [draw(end)]
         return {
             "family": "pair",
-            "timeouts": draw(timeouts),
+            "timeouts": draw(timeouts_pair),
             "max_steps": 20000, "quantum": 0.1,
             "acceptor": {"kind": "pynetdicom", "handlers": draw(handlers), "shutdown_at": draw(t_opt), "abort_on": draw(on_evt)},
             "requestors": [{"kind": "pynetdicom", "script": script, "abort_at": draw(t_opt), "abort_on": draw(on_evt_rq)}],
@@ -198,10 +201,10 @@ def pynetdicom_threads(rep):
 def time_bound(sc):
     """virtual seconds within which any scenario of the lifecycle families must be over (every timeout twice + scripted delays)"""
     to = sc["timeouts"]
-    return 2 * (to["acse"] + to["dimse"] + to["network"]) + to["connection"] + 14.0
+    return 2 * (to["acse"] + (to["dimse"] or 0) + to["network"]) + (to["connection"] or 0) + 14.0
 
 
-def livelock(out, bound, factor=10.0):
+def livelock(out, bound, factor=3.0):
     """A run that exhausted its step budget is inconclusive - unless the virtual clock is far beyond every configured timeout
     (`factor` x the time bound the property allows) while pynetdicom threads are still alive: nothing bounded by a timeout can
     take that long, so some thread is polling without a deadline (pynetdicom waits by polling in kill(), release(), stop_dul() ...).
